@@ -137,6 +137,7 @@ def gen_tasks(ctx, rng, n_cfg, n_beh, make_groups, maxcalls, faults, hyper_keys,
                         g2["lr"], g2["wd"] = list(dd["groups"][0]["lr"]), list(dd["groups"][0]["wd"])
             if per_beh_redraw:
                 family.draw_grad_mode(rng, dd)
+                family.draw_frozen(rng, dd)
             family.draw_scales(rng, dd)
             tasks.append((dd, beh, {"numeric": numeric}))
     return tasks
